@@ -658,13 +658,13 @@ spifconf_shell_expand(spif_charptr_t s)
                   EnvVar = (spif_charptr_t) MALLOC(128);
                   switch (*(++pbuff)) {
                     case '{':
-                        for (pbuff++, k = 0; *pbuff != '}' && k < 127; k++, pbuff++)
+                        for (pbuff++, k = 0; *pbuff && *pbuff != '}' && k < 127; k++, pbuff++)
                             EnvVar[k] = *pbuff;
                         if (*pbuff == '}')
                             pbuff++;
                         break;
                     case '(':
-                        for (pbuff++, k = 0; *pbuff != ')' && k < 127; k++, pbuff++)
+                        for (pbuff++, k = 0; *pbuff && *pbuff != ')' && k < 127; k++, pbuff++)
                             EnvVar[k] = *pbuff;
                         if (*pbuff == ')')
                             pbuff++;
